@@ -119,7 +119,8 @@ def projections(rep, F, rule='R-PROJ'):
             ok = TB.is_call(iv, r'convert::Into::into$|convert::From::from$') and TB.deref(TB.deref(iv)[2][0]) == p1 and sc == T('const', 0)
             want = '{int_val: n.into(), scale: 0}'
         elif src.endswith('BigInt') and not src.startswith('('):
-            ok = iv == p1 and sc == T('const', 0)
+            # `n.into()` from BigInt to BigInt is the reflexive conversion (the identity)
+            ok = (iv == p1 or (TB.is_call(iv, r'convert::Into::into$|convert::From::from$') and TB.deref(TB.deref(iv)[2][0]) == p1)) and sc == T('const', 0)
             want = '{int_val: <the argument>, scale: 0}'
         elif src.startswith('('):
             ok = TB.is_call(iv, r'convert::Into::into$') and TB.deref(TB.deref(iv)[2][0]) == T('field', p1, '0') and sc == T('field', p1, '1')
@@ -341,7 +342,7 @@ def is_integer_table(rep, F, rule='R-TABLE'):
     try:
         paths = TB.PathEnum(F, fn, max_paths=32).run()
     except Undecided as e:
-        rep.undecided(rule, fn.key + ':table', str(e), fn.where())
+        rep.undecided_anchor(rule, fn.key + ':table', str(e), fn.where())
         return 0
     n = 0
     for atoms, out in paths:
